@@ -20,6 +20,7 @@ WHEN = {'BEFORE', 'AFTER', 'INNER', 'OUTTER'}
 
 
 EXTLIST_CLASS = []
+EXTMAP = {}
 
 
 class Bad(ValueError):
@@ -73,7 +74,7 @@ class Method:
     def var(self, name):
         if name not in self.vars:
             self.vars[name] = len(self.vars)
-        return 'v_%s_%s' % (self.fn.name, name)
+        return 'v_%s_%s' % (self.fn.name, name.replace('@', 'x_'))
 
     def use(self, name, node):
         if name not in self.assigned:
@@ -141,6 +142,8 @@ class Method:
                 r = 'RConst VNone'
             elif isinstance(v, ast.Name):
                 r = 'RVar %s' % self.use(v.id, s)
+            elif isinstance(v, (ast.UnaryOp, ast.Compare)):
+                r = 'RCond (%s)' % self.cond(v)
             else:
                 bad('assigned value', s)
             name = s.targets[0].id
@@ -161,8 +164,23 @@ class Method:
             self.assigned = a1 & self.assigned
             return 'SIf (%s) (%s) (%s)' % (c, th, el)
         if isinstance(s, ast.Try):
-            if s.orelse or s.finalbody:
-                bad('try with else/finally', s)
+            if s.finalbody:
+                bad('try with finally', s)
+            if s.orelse:
+                # try: B / except ...: H / else: E   ==   ok = False; try: B; ok = True / except ...: H;  if ok: E
+                # (E is not covered by the handlers either way; a `return` inside B leaves both forms at once)
+                self.fresh = getattr(self, 'fresh', 0) + 1
+                okname = '@else%d' % self.fresh
+                ok = self.var(okname)
+                self.assigned.add(okname)
+                inner = ast.Try(body=s.body, handlers=s.handlers, orelse=[], finalbody=[])
+                ast.copy_location(inner, s)
+                self.stmt(inner)          # translates body and handlers (kept in _last_try_*), tracks bound names
+                orelse = self.block(s.orelse)
+                body_txt = self._last_try_body
+                hs_txt = self._last_try_handlers
+                return ('SSeq (SAssign %s (RConst (VBool false))) (SSeq (STry (SSeq (%s) (SAssign %s (RConst (VBool true)))) (%s)) '
+                        '(SIf (CVar %s) (%s) (SSkip)))' % (ok, body_txt, ok, hs_txt, ok, orelse))
             before = set(self.assigned)
             body = self.block(s.body)
             after_body = self.assigned
@@ -186,6 +204,7 @@ class Method:
             for ks, bind, hb in reversed(handlers):
                 hs = 'HCons [%s] (%s) (%s) (%s)' % ('; '.join(ks), bind, hb, hs)
             self.assigned = joined | before
+            self._last_try_body, self._last_try_handlers = body, hs
             return 'STry (%s) (%s)' % (body, hs)
         if isinstance(s, ast.For):
             if s.orelse or not isinstance(s.target, ast.Name) or len(s.body) != 1:
@@ -197,6 +216,39 @@ class Method:
                 bad('for body', s)
             call = b.value
             it = s.iter
+            # for v in self.extensions.<helper>(When.A, When.B): a helper of ExtList returning, for its `whens`, the
+            # concatenation of self._visitors[when] in argument order
+            if (isinstance(it, ast.Call) and isinstance(it.func, ast.Attribute) and isinstance(it.func.value, ast.Attribute)
+                    and isinstance(it.func.value.value, ast.Name) and it.func.value.value.id == 'self'
+                    and it.func.value.attr == 'extensions' and not it.keywords and len(it.args) == 2 and not self.in_extlist):
+                helper = [m for m in EXTLIST_CLASS[0].body if isinstance(m, ast.FunctionDef) and m.name == it.func.attr]
+                ok = False
+                if len(helper) == 1 and helper[0].args.vararg is not None and not helper[0].decorator_list:
+                    va = helper[0].args.vararg.arg
+                    hb = strip_doc(helper[0].body)
+                    want = 'return [V for W in %s for V in self._visitors[W]]' % va
+                    if len(hb) == 1 and isinstance(hb[0], ast.Return) and isinstance(hb[0].value, ast.ListComp):
+                        lc = hb[0].value
+                        if (len(lc.generators) == 2 and not lc.generators[0].ifs and not lc.generators[1].ifs
+                                and isinstance(lc.elt, ast.Name) and isinstance(lc.generators[1].target, ast.Name)
+                                and lc.elt.id == lc.generators[1].target.id and isinstance(lc.generators[0].target, ast.Name)
+                                and ast.unparse(lc.generators[0].iter) == va
+                                and ast.unparse(lc.generators[1].iter) == 'self._visitors[%s]' % lc.generators[0].target.id):
+                            ok = True
+                if not ok:
+                    bad('ExtList helper %s is not the concatenation of the buckets of its arguments' % it.func.attr, it)
+                whens = []
+                for a_ in it.args:
+                    if not (isinstance(a_, ast.Attribute) and ast.unparse(a_.value) == 'When' and a_.attr in WHEN):
+                        bad('When constant', a_)
+                    inv = [k for k, v in EXTMAP.items() if v == a_.attr]
+                    if len(inv) != 1:
+                        bad('no ExtList property returns the bucket When.%s' % a_.attr, a_)
+                    whens.append(inv[0])
+                if not (isinstance(call.func.value, ast.Name) and call.func.value.id == tgt and call.args[0].id == 'ob'
+                        and call.func.attr in ('visit', 'depart')):
+                    bad('extension loop body', b)
+                return 'SForExts %s %s %s' % (whens[0], whens[1], 'Enter' if call.func.attr == 'visit' else 'Leave')
             # for v in self.extensions.A + self.extensions.B: v.visit(ob) | v.depart(ob)
             if isinstance(it, ast.BinOp) and isinstance(it.op, ast.Add):
                 a, c = self.is_self_ext(it.left), self.is_self_ext(it.right)
@@ -292,9 +344,19 @@ def generate() -> dict:
     add = find_method(E, 'add')
     pin(add.args.vararg is not None and add.args.vararg.arg == 'extensions', 'ExtList.add signature')
     body = strip_doc(add.body)
+    def add_tail_ok(stmts):
+        tail = [ast.unparse(x) for x in stmts if not isinstance(x, ast.Assert)]
+        if tail == ['self._visitors[extension.when].append(extension())']:
+            return True
+        if len(tail) == 2:
+            a0 = [x for x in stmts if not isinstance(x, ast.Assert)][0]
+            if isinstance(a0, ast.Assign) and len(a0.targets) == 1 and isinstance(a0.targets[0], ast.Name) \
+                    and ast.unparse(a0.value) == 'self._visitors[extension.when]' \
+                    and tail[1] == '%s.append(extension())' % a0.targets[0].id:
+                return True
+        return False
     pin(len(body) == 1 and isinstance(body[0], ast.For) and ast.unparse(body[0].iter) == 'extensions'
-        and ast.unparse(body[0].body[-1]) == 'self._visitors[extension.when].append(extension())'
-        and all(isinstance(s, ast.Assert) for s in body[0].body[:-1]), 'ExtList.add body')
+        and ast.unparse(body[0].target) == 'extension' and add_tail_ok(body[0].body), 'ExtList.add body')
     init = strip_doc(find_method(E, '__init__').body)
     pin([ast.unparse(s) for s in init] == ["self._visitors: Dict[When, List['VisitorExt[T]']] = defaultdict(list)",
                                            'self.add(*extensions)'], 'ExtList.__init__')
@@ -313,6 +375,7 @@ def generate() -> dict:
               and ast.unparse(b[0].value.slice.value) == 'When' and b[0].value.slice.attr in WHEN)
         pin(ok, 'ExtList.%s body' % prop)
         extmap[lname] = b[0].value.slice.attr
+    EXTMAP.clear(); EXTMAP.update(extmap)
 
     # ---- the four bodies
     ms = {}
@@ -331,7 +394,7 @@ def generate() -> dict:
         m = ms[name]
         lines.append('(* locals of Visitor.%s *)' % name)
         for py, i in m.vars.items():
-            lines.append('Definition v_%s_%s : var := %d.' % (name, py, i))
+            lines.append('Definition v_%s_%s : var := %d.' % (name, py.replace('@', 'x_'), i))
         lines.append('Definition code_%s : stmt :=' % name)
         lines.append(textwrap.fill(m.text, 110, initial_indent='  ', subsequent_indent='  ', break_long_words=False) + '.')
         lines.append('')
